@@ -379,6 +379,26 @@ func (f *FnVC) specField(env *SEnv, x Val, name string) (Val, error) {
 				f.typeInvariant(nil, out)
 			}
 		}
+		// references read from the heap by a contract are objects that exist in that heap state (not "from the future"):
+		// without this a later allocation could alias a field the code itself never loads
+		if (out.T.Sort == SRef || out.T.Sort == SIface || out.T.Sort == SSlice) && !strings.Contains(out.T.S, "q_") && env.cur != nil {
+			key := "kr:" + out.T.S
+			if !f.tiDone[key] {
+				if f.tiDone == nil {
+					f.tiDone = map[string]bool{}
+				}
+				f.tiDone[key] = true
+				r := out.T
+				switch out.T.Sort {
+				case SIface:
+					r = app("iref", SRef, out.T)
+				case SSlice:
+					r = app("lref", SRef, out.T)
+				}
+				a := f.comp(env.cur, "alloc", SInt)
+				f.SC.Assert(fmt.Sprintf("(<= %s %s)", r.S, a.S))
+			}
+		}
 		return out, nil
 	}
 	if st, ok := t.Underlying().(*types.Struct); ok {
